@@ -11,7 +11,6 @@ import (
 	"github.com/attestantio/go-eth2-client/spec/phase0"
 	"github.com/attestantio/vouch/internal/vnd"
 	"github.com/attestantio/vouch/internal/vstub"
-	"github.com/rs/zerolog"
 )
 
 // c13FarFuture is the far future epoch handed to the constructor.
@@ -20,7 +19,7 @@ const c13FarFuture = phase0.Epoch(0xffffffffffffffff)
 // c13New builds the validators manager through its constructor; the known
 // validators (state that has no option) are put in place by the caller.
 func c13New(p *c13Provider, label string) *Service {
-	s, err := New(context.Background(), WithLogLevel(zerolog.Disabled), WithMonitor(struct{}{}),
+	s, err := New(context.Background(), WithLogLevel(vnd.LogLevel()), WithMonitor(struct{}{}),
 		WithClientMonitor(vstub.ClientMonitor{}), WithValidatorsProvider(p), WithFarFutureEpoch(c13FarFuture))
 	vnd.Assert(err == nil && s != nil, label)
 	return s
